@@ -148,6 +148,7 @@ def _judge(case, out, clock, tel):
     if case.get("decoy"):
         _decoys.lifecycle(case["decoy"], tel)
         out.label("decoy")
+        _decoys.note(out)
     if handler:
         out.label("re-entrant-handler")
     mx = cfg["max_ops"]
